@@ -6,6 +6,7 @@ import (
 	"os"
 
 	_ "verif/sim/props/c01"
+	_ "verif/sim/props/c05"
 	_ "verif/sim/props/c11"
 	_ "verif/sim/props/c19"
 )
